@@ -82,7 +82,7 @@ def main():
             "guard": "SOUFFLE_VERIF",
             "enable": "checks build /repo into /verif/.build with -DCMAKE_CXX_FLAGS='-O1 -DSOUFFLE_VERIF' (vlib/common.py ensure_souffle)",
             "baseline_off_cmd": "cmake --build /repo/_build -j16 && ctest --test-dir /repo/_build -j8 --timeout 900",
-            "source_commits": [],
+            "source_commits": ["c4f7182c2"],
             "add_only": True,
         },
         "engines": [
